@@ -878,9 +878,10 @@ pub fn exec(op: &str, a: &[&str]) -> Option<String> {
                 "rfc3339" => e.to_rfc3339(),
                 "json" => {
                     let j = serde_json::to_string(&e).unwrap();
-                    return Some(match serde_json::from_str::<Epoch>(&j) {
-                        Ok(x) => format!("ok {}", e2s(x)),
-                        Err(_) => "err".to_string(),
+                    return Some(match super::json_all::<Epoch>(&j) {
+                        Ok(Some(x)) => format!("ok {}", e2s(x)),
+                        Ok(None) => "err".to_string(),
+                        Err(()) => "entry-points-differ".to_string(),
                     });
                 }
                 _ => return None,
@@ -889,9 +890,10 @@ pub fn exec(op: &str, a: &[&str]) -> Option<String> {
         }
         "eparse" | "nparse" | "p_epoch" => Some(res_e(Epoch::from_str(&hex2str(a[0])))),
         "gregparse" | "p_greg" => Some(res_e(Epoch::from_gregorian_str(&hex2str(a[0])))),
-        "ejsonparse" => Some(match serde_json::from_str::<Epoch>(&hex2str(a[0])) {
-            Ok(x) => format!("ok {}", e2s(x)),
-            Err(_) => "err".to_string(),
+        "ejsonparse" => Some(match super::json_all::<Epoch>(&hex2str(a[0])) {
+            Ok(Some(x)) => format!("ok {}", e2s(x)),
+            Ok(None) => "err".to_string(),
+            Err(()) => "entry-points-differ".to_string(),
         }),
         "p_ts" => Some(match TimeScale::from_str(&hex2str(a[0])) {
             Ok(t) => format!("ok {}", ts2s(t)),
